@@ -111,6 +111,10 @@ class Flavour:
     def content_intact(self):
         return True
 
+    def str_values(self):
+        """model values whose data object is a plain string (stored as a bare string when nothing else is needed)"""
+        return list(range(1, 9)) if self.is_str else []
+
     def model_did_of_node(self, node):
         return self.model_did(node.data_id)
 
@@ -235,6 +239,8 @@ class StrCallbackFlavour(Flavour):
 
 
 class IntFlavour(Flavour):
+    name_sorted = False      # 7, 14, 21: the default sort key is the NAME ("14" < "21" < "7")
+
     def _make(self, d):
         return d * 7
 
@@ -337,6 +343,32 @@ class UnhashFlavour(Flavour):
         return all(o == {"name": NAMES[d - 1]} for d, o in self._data.items())
 
 
+class MixedFlavour(Flavour):
+    """strings and objects in ONE tree (odd values: str, even values: Item), saved with a serialiser that only knows
+    its objects and loaded with a STRICT deserialiser (like the user guide's: it raises for an entry it does not
+    know) - bare strings never reach a mapper"""
+
+    def _make(self, d):
+        return NAMES[d - 1] if d % 2 else Item(NAMES[d - 1], d)
+
+    @staticmethod
+    def _ser(node, data):
+        if isinstance(node.data, Item):
+            data["name"] = node.data.name
+            data["rank"] = node.data.rank
+        return data
+
+    @staticmethod
+    def _deser(parent, data):
+        return Item(data["name"], data["rank"])      # KeyError for anything else
+
+    lib_mappers = (_ser.__func__, _deser.__func__)
+    strict_docs = True
+
+    def str_values(self):
+        return [d for d in range(1, 9) if d % 2]
+
+
 class DWrapFlavour(Flavour):
     """DictWrapper data stored with the library's own mapper pair (DictWrapper.serialize_mapper / deserialize_mapper);
     the wrapped dicts use the field names of Item, so that custom key / value maps name keys of the user's dicts"""
@@ -436,6 +468,7 @@ def make(name, typed=False) -> Flavour:
         "fwd": FwdFlavour,
         "dictwrapper": DictWrapperFlavour,
         "dwrap": DWrapFlavour,
+        "mixed": MixedFlavour,
         "unhash": UnhashFlavour,
         "dwrapx": DWrapFlavour,      # the same, named apart for trees with explicit data_ids
         "keyed": KeyedFlavour,
